@@ -121,6 +121,26 @@ def check(repo, res, tier):
             res.bad('C13.E1', f, call, what, 'the transition (%s) is not in %s any more' % (spec, f.qual))
         else:
             res.ok('C13.E1', f, call, what)
+    # every observation is examined every step: the per-observation loop has no early exit
+    tel = repo.func('Telescope.run')
+    obs_loops = [n for n in walk_no_nested(tel.node) if isinstance(n, ast.For)]
+    from .common import iteration_segments
+    for lp in obs_loops:
+        early = [how for seg, how in iteration_segments(tel, lp) if how not in ('back', 'raise')]
+        (res.ok if not early else res.bad)(
+            'C13.E1', tel, lp, 'the per-observation loop of Telescope.run examines every observation each step',
+            'ok' if not early else 'the per-observation loop can be left early (%s): an observation listed later is not '
+            'examined in that step, so its "finished" entry is stamped later than start + duration' % early[0])
+    # "allocation stopped" is emitted once: the buffer refuses to finish an observation only if it is not resident
+    mk = repo.func('Buffer.mark_observation_finished')
+    mfr = Frame(mk)
+    rets = [n for n in walk_no_nested(mk.node) if isinstance(n, ast.Return)]
+    okm = bool(rets) and all(isinstance(r.value, ast.Call) and call_name(r.value) == 'remove' and
+                             canon.c(r.value.func.value, mfr) == 'HotBuffer' for r in rets)
+    (res.ok if okm else res.bad)(
+        'C13.E1', mk, rets[0] if rets else None, 'mark_observation_finished refuses only what HotBuffer.remove refuses',
+        'ok' if okm else 'mark_observation_finished has a refusal of its own; the scheduler emits "allocation stopped" before '
+        'asking and retries every step, so the log gets several "allocation stopped" entries and late "removed" entries')
     # spawn chain: started -> allocate_ingest -> ingest_data_stream first segment emits 'added'
     chain_ok, why = spawn_chain(repo, canon)
     f_ing = repo.func('Buffer.ingest_data_stream')
